@@ -42,8 +42,9 @@ var checks = map[string]*Check{
 			{World: "C01", Weight: 3},
 			{World: "C01", Race: true, Weight: 3},
 			{World: "C01/faulty", Weight: 2},
+			{World: "C01/restart", Weight: 2},
 		},
-		Probes:      []string{"concurrent_clients", "keepalive_followup_request"},
+		Probes:      []string{"concurrent_clients", "keepalive_followup_request", "unannounced_trailers", "requests_after_proxy_restart"},
 		Rule:        "Workload: 2..8 (thorough: ..48) concurrent clients with unique tokens in path, query, header and body; sizes across buffer boundaries; backend latency per request; a quarter of the clients send a follow-up request on their kept-alive connection; oracle compares status/header/body/trailer against the client's own token and counts backend invocations per token.",
 		Assumptions: commonAssumptions,
 		RealStub:    coreRealStub,
@@ -64,7 +65,7 @@ var checks = map[string]*Check{
 	},
 	"C05": {
 		Legs:        []Leg{{World: "C05", Weight: 1}},
-		Probes:      []string{"body_larger_than_buffers", "lockstep_multi_chunk", "through_wrapped_handler_chain", "declared_length_multi_chunk", "retry_while_streaming", "trickle_of_tiny_chunks", "upload_refused_before_response_started"},
+		Probes:      []string{"body_larger_than_buffers", "lockstep_multi_chunk", "through_wrapped_handler_chain", "declared_length_multi_chunk", "retry_while_streaming", "trickle_of_tiny_chunks", "upload_refused_before_response_started", "upload_starts_while_vm_identity_refresh_stalls", "stream_over_aged_http2_backend_connection"},
 		Rule:        "Real agent vs fake proxy that decodes the upload incrementally; lock-step backend flushes chunk i+1 only after the proxy saw chunk i; 1..12 (thorough ..200) chunks of 1 B..70 KiB (thorough ..2 MiB), pauses, agent handler chain drawn per run (sessions / banner / shim wrappers on or off), backend framing chunked or with a declared Content-Length, SimNet buffer sizes 1..256 KiB, latency 0..200 ms. Each chunk must be visible within 2 s + network time.",
 		Assumptions: commonAssumptions,
 		RealStub:    coreRealStub,
@@ -78,7 +79,7 @@ var checks = map[string]*Check{
 	},
 	"C20": {
 		Legs:        []Leg{{World: "C20", Weight: 1}},
-		Probes:      []string{"health_gated_start", "backend_unhealthy_at_startup", "unhealthy_exit_expected", "graceful_shutdown", "prompt_shutdown", "signal_during_list_call", "response_completed_during_grace", "signal_while_health_gated", "signal_while_list_calls_fail", "second_signal_during_grace_period"},
+		Probes:      []string{"health_gated_start", "backend_unhealthy_at_startup", "unhealthy_exit_expected", "graceful_shutdown", "prompt_shutdown", "signal_during_list_call", "response_completed_during_grace", "signal_while_health_gated", "signal_while_list_calls_fail", "second_signal_during_grace_period", "health_check_answered_late"},
 		Rule:        "Real agent main() with documented flags vs fake proxy and a backend with a scripted health endpoint: start-up failures / late listener, 0..24 periodic results with 0..80% failures, interval 1/2/5 s, threshold 1..4, health checks on/off; SIGINT or SIGTERM at 0..31 s after the first poll, grace 0/2/10/30 s, backend latency 0..20 s. Reference: consecutive-failure counter with reset; exit instants compared in simulated time (zero network latency). Also: a signal at a fixed time after start-up (while still health-gated), a second signal during the grace period, a pending-list endpoint that starts failing before the signal, and slow start-up credentials (signal before the first poll).",
 		Assumptions: commonAssumptions,
 		RealStub:    coreRealStub,
@@ -117,7 +118,7 @@ var checks = map[string]*Check{
 	},
 	"C11": {
 		Legs:        []Leg{{World: "C11", Weight: 3}, {World: "C11", Race: true, Weight: 1}},
-		Probes:      []string{"both_directions", "idle_poll_408", "data_post_more_than_10", "poll_returned_more_than_10", "injection_applied", "concurrent_sessions", "backend_closed_after_last_message", "session_opened_after_another_closed", "close_behind_backlog"},
+		Probes:      []string{"both_directions", "idle_poll_408", "data_post_more_than_10", "poll_returned_more_than_10", "injection_applied", "concurrent_sessions", "backend_closed_after_last_message", "session_opened_after_another_closed", "close_behind_backlog", "data_post_above_2_mib"},
 		Rule:        "Harness shim client (protocol of the injected script: open, then one data post and one poll outstanding at a time, close) -> real proxy -> real agent (shim handlers, relay goroutines) -> real gorilla websocket backend. one or two concurrent sessions; 0..30 (thorough ..120) messages per direction and session: ASCII/UTF-8 text, arbitrary binary, JSON documents; sizes 0..40 KB (thorough ..1 MiB); batches of 1..25 messages per data post; pauses up to 21 s (idle polls end in 408); protocol version 0/1/absent; header injection on in a third of the runs. Two FIFO reference queues compared at quiescence. Also: browsers running two sessions one after the other while another session is in use, backends that close after their last message, ignore the closing handshake or read slowly behind small socket buffers, and a close issued at once behind a backlog of accepted messages.",
 		Assumptions: commonAssumptions,
 		RealStub:    coreRealStub,
@@ -131,14 +132,14 @@ var checks = map[string]*Check{
 	},
 	"C13": {
 		Legs:        []Leg{{World: "C13", Weight: 1}},
-		Probes:      []string{"open_succeeded", "open_rejected", "non_shim_request", "backend_redirects_handshake", "sibling_of_shim_prefix", "backend_dial_refused", "many_pending_polls"},
+		Probes:      []string{"open_succeeded", "open_rejected", "non_shim_request", "backend_redirects_handshake", "sibling_of_shim_prefix", "backend_dial_refused", "many_pending_polls", "handshake_with_rewritten_host"},
 		Rule:        "1..6 concurrent shim open requests whose bodies come from a URL grammar (absolute, scheme-relative, path-only, opaque scheme:rest, empty, userinfo, IPv6 literals, odd ports, foreign and link-local hosts, control bytes) or are random byte strings, plus 0..3 requests on look-alike paths outside the shim prefix; closed-world SimNet records every address any goroutine of the agent's host dials. Input-dominated: the simulator's contribution is that no dial can escape observation.",
 		Assumptions: commonAssumptions,
 		RealStub:    coreRealStub,
 	},
 	"C10": {
 		Legs:        []Leg{{World: "C10", Weight: 3}, {World: "C10/lru", Weight: 1}, {World: "C10", Race: true, Weight: 2}, {World: "C10/lru", Race: true, Weight: 1}},
-		Probes:      []string{"session_issued", "cookies_restored", "concurrent_sessions", "lru_eviction", "late_response_after_eviction", "interim_1xx", "public_suffix_domain_cookie", "session_cookie_presented_twice", "follow_up_before_body_is_read", "concurrent_requests_in_uncached_session"},
+		Probes:      []string{"session_issued", "cookies_restored", "concurrent_sessions", "lru_eviction", "late_response_after_eviction", "interim_1xx", "public_suffix_domain_cookie", "session_cookie_presented_twice", "follow_up_before_body_is_read", "concurrent_requests_in_uncached_session", "empty_session_cookie_presented", "shimmed_websocket_open_in_a_session"},
 		Rule:        "1..4 (LRU leg: 3..6 with a window of 2) modelled browsers send 2..8 scripted requests over three hosts and four paths through real proxy and agent (-session-cookie-name) to a backend emitting generated Set-Cookie operations (set, overwrite, Path/Domain scoped, Max-Age, Secure/HttpOnly, delete, expired), with simulated gaps across expiry instants, then a burst of concurrent requests in all sessions plus two in one session. Reference: one independent net/http/cookiejar per modelled session on the same clock; values carry the session's tag so any foreign value is a leak. Also: interim 1xx before the final response, Domain=<public suffix> cookies on hosts under one- and two-label suffixes, clients presenting the session cookie twice, a follow-up request issued as soon as the response header has arrived (with a 200 KB banner page still unread), and two simultaneous requests of a session that has dropped out of the cache.",
 		Assumptions: commonAssumptions,
 		RealStub:    coreRealStub,
@@ -159,7 +160,7 @@ var checks = map[string]*Check{
 	},
 	"C15": {
 		Legs:        []Leg{{World: "C15", Weight: 3}, {World: "C15", Race: true, Weight: 1}},
-		Probes:      []string{"both_directions_at_once", "concurrent_connections", "stream_larger_than_64k", "passthrough_request", "server_speaks_first", "slow_reader_with_bulk_data", "orderly_end_of_both_directions"},
+		Probes:      []string{"both_directions_at_once", "concurrent_connections", "stream_larger_than_64k", "passthrough_request", "server_speaks_first", "slow_reader_with_bulk_data", "orderly_end_of_both_directions", "slow_passthrough_upload"},
 		Rule:        "TCP clients -> real tcp-bridge-frontend main() -> websocket over SimNet through the real h2c-wrapped tcp-bridge-backend main() -> harness TCP server. 1..4 (thorough ..32) connections, per direction 0..6 writes of 0 B..70 KB (all 256 byte values), reader buffers 1 B..100 KB, both directions at once, SimNet buffers 1..64 KiB and segmentation up to 70%; plus plain HTTP POSTs to the bridge backend for the pass-through clause. Also: server-speaks-first connections, readers that stall for 1.5 s / 4 s, and connections on which both peers end their direction in an orderly way (half-close, read to the end, close) - nothing may be lost.",
 		Assumptions: commonAssumptions,
 		RealStub: map[string]string{
@@ -173,7 +174,7 @@ var checks = map[string]*Check{
 	},
 	"C16": {
 		Legs:        []Leg{{World: "C16", Weight: 1}},
-		Probes:      []string{"one_side_closed_first", "several_connections", "graceful_close_complete_data", "graceful_close_slow_reader_bulk_data"},
+		Probes:      []string{"one_side_closed_first", "several_connections", "graceful_close_complete_data", "graceful_close_slow_reader_bulk_data", "tcp_server_down"},
 		Rule:        "Same world as C15; per connection the client, the server or both close after their writes with a delay of 0..5 s relative to data in flight in either direction. Liveness in simulated time: the surviving peer must see end-of-stream within 60 s after having received everything sent before the close; SimNet's connection table is the counter for leaked bridge connections. Also: small socket buffers with both directions full when both peers go away (the bridge must still release everything), slow readers, peers that only half-closed earlier and must still receive the rest.",
 		Assumptions: commonAssumptions,
 		RealStub: map[string]string{
@@ -187,7 +188,7 @@ var checks = map[string]*Check{
 	},
 	"C17": {
 		Legs:        []Leg{{World: "C17", Weight: 1}},
-		Probes:      []string{"admin_api_refused", "authorised_agent_call", "unauthorised_agent_call", "user_request_routed", "reregistered_old_agent", "crafted_request_id", "federated_user_without_email", "intruder_concurrent_with_rightful_agent"},
+		Probes:      []string{"admin_api_refused", "authorised_agent_call", "unauthorised_agent_call", "user_request_routed", "reregistered_old_agent", "crafted_request_id", "federated_user_without_email", "intruder_concurrent_with_rightful_agent", "oauth_token_without_email"},
 		Rule:        "App Engine proxy behind the platform's request wrapper with a stub platform: 1..4 registered backends; admin API calls, agent calls (pending/request/response) and end-user requests by generated identities (anonymous, signed-in user, OAuth agent, OAuth user, admin, OAuth admin) against own / other / unknown backend and request IDs. Reference ACL table maintained from successful admin calls; store snapshot compared before/after every refused call.",
 		Assumptions: commonAssumptions,
 		RealStub: map[string]string{
@@ -213,7 +214,7 @@ var checks = map[string]*Check{
 	},
 	"C19": {
 		Legs:        []Leg{{World: "C19", Weight: 2}, {World: "C19/faulty", Weight: 2}, {World: "C19", Race: true, Weight: 1}},
-		Probes:      []string{"response_relayed", "timeout_504", "request_across_part_limit", "response_across_part_limit", "both_respond_writes_fail", "concurrent_clients", "request_exact_multiple_of_part_size", "response_exact_multiple_of_part_size", "repeated_get_not_replayed", "cleanup_cron_between_post_and_pickup"},
+		Probes:      []string{"response_relayed", "timeout_504", "request_across_part_limit", "response_across_part_limit", "both_respond_writes_fail", "concurrent_clients", "request_exact_multiple_of_part_size", "response_exact_multiple_of_part_size", "repeated_get_not_replayed", "cleanup_cron_between_post_and_pickup", "respond_call_cut_partway"},
 		Rule:        "1..4 concurrent client requests (GET/POST, unique tokens, some sharing user and URL) and a scripted authorised agent (list, fetch, respond after 0..29 s or never) through the App Engine proxy on the stub platform; request/response sizes 0 B .. 2,000,001 B around the 1,000,000-byte inline and part limits; memcache eviction 0/30/100%; faulty leg fails the n-th datastore Put/Get/RunQuery or memcache Set of a kind, including both writes of one respond call. Every handler call must return within 31 s of simulated time. Also: payloads whose stored length is exactly 1, 2 or 3 MB, repeated GETs of one URL whose first answer carried Cache-Control (never replayed), and the platform's clean-up cron call between a respond call and the client's next look.",
 		Assumptions: commonAssumptions,
 		RealStub: map[string]string{
